@@ -310,6 +310,28 @@ def check_method(ctx, world, wd, mname, kind, attr, nested, params, receiver):
             if target is None or not _eq(got, _prepared(world, kind, p.name, want)):
                 ctx.fail(f"virtual_not_reaching|{kind}", test, f"{mname}(..., {p.name}={want!r}): the nested object has {p.name}={got!r}")
                 return False
+            # the same keyword next to a positional value given as a mapping of constructor arguments (dict-to-spec casting):
+            # the keyword completes the mapping (it may even be the one required argument, e.g. the key)
+            other = {"U": {"a": ("b", "dv"), "b": ("a", 41)}, "N": {"k": ("v", 41), "v": ("k", "dk2"), "note": ("k", "dk3")}}.get(nested, {}).get(p.name)
+            if other and kind in ("scalar_with", "scalar_update", "elem_with") and not isinstance(arg, list):
+                a3 = (["c"] if kind == "elem_with" and family(world.attrs()[attr]["type"]) == "map" else []) + [{other[0]: other[1]}]
+                k3 = dict(kwargs, **{p.name: arg})
+                k3.pop(other[0], None)
+                r3, (o3, v3) = call(a3, k3)
+                t3 = dict(case0, test=f"virtual_with_mapping:{p.name}")
+                if o3 != "ok":
+                    ctx.fail(f"virtual_with_mapping_rejected|{kind}|{type(v3).__name__}", t3, f"{mname}({a3}, **{k3}) raised {v3!r}; the same keyword without the mapping is accepted")
+                    return False
+                # (located through the mapping's distinctive value: the keyword's value may equal an existing element's)
+                both = [x for x in (list(getattr(v3, attr).values()) if isinstance(getattr(v3, attr, None), dict) else list(getattr(v3, attr, None) or []))
+                        if _eq(getattr(x, p.name, "<missing>"), _prepared(world, kind, p.name, want)) and _eq(getattr(x, other[0], "<missing>"), _prepared(world, kind, other[0], other[1]))] if kind == "elem_with" else []
+                tgt = both[0] if both else _locate(world, kind, attr, v3, dict(k3, **{other[0]: other[1]}), (other[0], _prepared(world, kind, other[0], other[1])))
+                g1 = getattr(tgt, p.name, "<missing>") if tgt is not None else "<no target>"
+                g2 = getattr(tgt, other[0], "<missing>") if tgt is not None else "<no target>"
+                if tgt is None or not _eq(g1, _prepared(world, kind, p.name, want)) or not _eq(g2, _prepared(world, kind, other[0], other[1])):
+                    ctx.fail(f"virtual_with_mapping_not_reaching|{kind}", t3, f"{mname}({a3}, {p.name}={want!r}): the nested object has {p.name}={g1!r}, {other[0]}={g2!r}")
+                    return False
+                ctx.count("virtual_with_mapping")
         ctx.case(test, True)
     # overflow keywords
     if var_kw and kind in ("init", "scalar_with", "elem_with"):
@@ -349,13 +371,13 @@ def check_method(ctx, world, wd, mname, kind, attr, nested, params, receiver):
         for bad in OUTSIDE:
             if bad in names:
                 continue
-            for extra in ({}, {"_inplace": True}):
-                if extra and ("_inplace" not in names or kind == "init"):
+            for extra in ({}, {"_inplace": True}, {"_if": False}, {"_if": True}):
+                if extra and (list(extra)[0] not in names or kind == "init"):
                     continue
                 r1 = receiver()
                 snap = Snapshot(r1)
                 _, (o1, v1) = call(args, dict(kwargs, **{bad: 1}, **extra), inplace_receiver=r1)
-                test = dict(case0, test=f"outside:{bad}{':inplace' if extra else ''}")
+                test = dict(case0, test=f"outside:{bad}{':' + ','.join(f'{k}={v}' for k, v in extra.items()) if extra else ''}")
                 if o1 != "raise" or not isinstance(v1, TypeError):
                     ctx.fail(f"outside_accepted|{kind}|{_outside_kind(bad)}", test, f"{mname}(..., {bad}=1) -> {o1} {v1!r}; {bad} is not in the signature")
                     return False
